@@ -13,7 +13,7 @@ import sys
 import threading as _threading
 from collections import deque as _deque
 
-REPO = os.environ.get('VERIF_REPO', '/repo')
+REPO = (os.environ.get('VERIF_REPO') or '/repo')
 if REPO not in sys.path:
     sys.path.insert(0, REPO)
 
